@@ -1,23 +1,139 @@
-(** C10 - proofs about the fault-injection monad (all programs of the
-    language, all stores, all fault positions). *)
+(** C10 - proofs about the fault-injection monad.
+
+    Everything below is proved for a program [p] and a table [T] under the
+    hypothesis [sites_propagate T p]: every call site the program can reach
+    is Propagated in [T].  Without it the statements are FALSE (see
+    [dropped_site_refutes] at the end): the hypothesis is used, in the [Call]
+    case of every induction.  [uses_only L p] + [sites_ok T L = true] gives the
+    hypothesis; the first is a fact about the transcription, the second is
+    decided by computation on the regenerated table (Properties/C10.v). *)
 From stdpp Require Import gmap.
-From Coq Require Import ZArith List Lia.
+From Coq Require Import ZArith List Lia String.
 From Verif Require Import Fault.Fault.
 Import ListNotations.
 
-(** The call counter never decreases. *)
-Lemma run_counter_mono : forall A (p : prog A) s n f, n <= snd (run p s n f).
+(** ** Sites *)
+
+Lemma mem_site_In s L : mem_site s L = true -> In s L.
 Proof.
-  induction p as [A a|A c|A r|w c|A B p IHp g IHg]; intros s n f; simpl.
+  unfold mem_site. rewrite existsb_exists. intros [x [Hin Heq]].
+  apply String.eqb_eq in Heq. subst. exact Hin.
+Qed.
+
+Lemma sites_ok_In T L s : sites_ok T L = true -> In s L -> propagates (T s) = true.
+Proof.
+  unfold sites_ok. rewrite forallb_forall. auto.
+Qed.
+
+Lemma incl_sites_mem L L' s : incl_sites L L' = true -> mem_site s L = true -> mem_site s L' = true.
+Proof.
+  unfold incl_sites. rewrite forallb_forall. intros H Hm. apply H. apply mem_site_In. exact Hm.
+Qed.
+
+Theorem uses_only_mono : forall L L' A (p : prog A),
+  uses_only L p -> incl_sites L L' = true -> uses_only L' p.
+Proof.
+  intros L L' A p. induction p as [A a|A c|A r|w c|A B p IHp g IHg|A st p IHp d]; simpl; auto.
+  - intros [Hp Hg] Hi. split; [auto|]. intros a. apply IHg; auto.
+  - intros [Hm Hp] Hi. split; [eapply incl_sites_mem; eauto|auto].
+Qed.
+
+Theorem uses_only_sites_propagate : forall T L A (p : prog A),
+  uses_only L p -> sites_ok T L = true -> sites_propagate T p.
+Proof.
+  intros T L A p. induction p as [A a|A c|A r|w c|A B p IHp g IHg|A st p IHp d]; simpl; auto.
+  - intros [Hp Hg] Hok. split; [auto|]. intros a. apply IHg; auto.
+  - intros [Hm Hp] Hok. split; [|auto]. eapply sites_ok_In; eauto. apply mem_site_In. exact Hm.
+Qed.
+
+Lemma uses_only_for_each : forall L X (l : list X) (body : X -> prog unit),
+  (forall x, uses_only L (body x)) -> uses_only L (for_each l body).
+Proof.
+  intros L X l body H. induction l as [|x l IH]; simpl; auto.
+Qed.
+
+Lemma uses_only_fold_prog : forall L X S (l : list X) (acc : S) (body : S -> X -> prog S),
+  (forall a x, uses_only L (body a x)) -> uses_only L (fold_prog l acc body).
+Proof.
+  intros L X S l. induction l as [|x l IH]; intros acc body H; simpl; auto.
+Qed.
+
+Lemma all_propagate_sites : forall A (p : prog A), sites_propagate all_propagate p.
+Proof.
+  intros A p. induction p as [A a|A c|A r|w c|A B p IHp g IHg|A st p IHp d]; simpl; auto.
+Qed.
+
+(** ** The run *)
+
+(** The call counter never decreases. *)
+Lemma run_counter_mono : forall T A (p : prog A) s n f, n <= snd (run T p s n f).
+Proof.
+  intros T A p.
+  induction p as [A a|A c|A r|w c|A B p IHp g IHg|A st p IHp d]; intros s n f; simpl.
   - unfold m_ret; simpl; lia.
   - unfold m_fail; simpl; lia.
   - unfold m_read; simpl; lia.
   - unfold m_write. destruct (hits n f); [simpl; lia|].
     destruct (w s); simpl; lia.
-  - unfold m_bind. destruct (run p s n f) as [[r s1] n1] eqn:E.
+  - unfold m_bind. destruct (run T p s n f) as [[r s1] n1] eqn:E.
     pose proof (IHp s n f) as Hp. rewrite E in Hp. simpl in Hp.
     destruct r as [a|e]; simpl; [|lia].
     pose proof (IHg a s1 n1 f) as Hg. lia.
+  - unfold m_call. destruct (run T p s n f) as [[r s1] n1] eqn:E.
+    pose proof (IHp s n f) as Hp. rewrite E in Hp. simpl in Hp.
+    destruct r as [a|e]; simpl; [lia|].
+    destruct e; simpl; try lia; destruct (on_err (T st)); simpl; lia.
+Qed.
+
+(** With every site propagating, no function ever "returns nil early". *)
+Lemma no_swallow : forall T A (p : prog A), sites_propagate T p ->
+  forall s n f, fst (fst (run T p s n f)) <> Err Swallowed.
+Proof.
+  intros T A p.
+  induction p as [A a|A c|A r|w c|A B p IHp g IHg|A st p IHp d]; intros Hsp s n f; simpl.
+  - discriminate.
+  - discriminate.
+  - discriminate.
+  - unfold m_write. destruct (hits n f); [discriminate|]. destruct (w s); discriminate.
+  - destruct Hsp as [Hp Hg]. unfold m_bind.
+    destruct (run T p s n f) as [[r s1] n1] eqn:E.
+    destruct r as [a|e].
+    + apply IHg. apply Hg.
+    + pose proof (IHp Hp s n f) as H. rewrite E in H. simpl in *.
+      intros Heq. apply H. inversion Heq. reflexivity.
+  - destruct Hsp as [Hst Hp]. unfold m_call.
+    destruct (run T p s n f) as [[r s1] n1] eqn:E.
+    pose proof (IHp Hp s n f) as H. rewrite E in H. simpl in H.
+    destruct r as [a|e]; [discriminate|].
+    destruct e; try (exfalso; apply H; reflexivity);
+      destruct (T st); simpl in *; try discriminate.
+Qed.
+
+(** A propagated call is transparent. *)
+Lemma run_call_propagated : forall T A st (p : prog A) d, sites_propagate T (Call st p d) ->
+  forall s n f, run T (Call st p d) s n f = run T p s n f.
+Proof.
+  intros T A st p d [Hst Hp] s n f. simpl. unfold m_call.
+  pose proof (no_swallow T A p Hp s n f) as H.
+  destruct (run T p s n f) as [[r s1] n1]. simpl in H.
+  destruct r as [a|e]; [reflexivity|].
+  destruct e; try reflexivity; try (exfalso; apply H; reflexivity);
+    destruct (T st); simpl in *; try discriminate; reflexivity.
+Qed.
+
+(** Under the hypothesis the table does not matter any more: the run is the
+    run of the reading in which every call propagates. *)
+Theorem run_table_irrelevant : forall T A (p : prog A), sites_propagate T p ->
+  forall s n f, run T p s n f = run all_propagate p s n f.
+Proof.
+  intros T A p.
+  induction p as [A a|A c|A r|w c|A B p IHp g IHg|A st p IHp d]; intros Hsp s n f; try reflexivity.
+  - destruct Hsp as [Hp Hg]. simpl. unfold m_bind. rewrite (IHp Hp).
+    destruct (run all_propagate p s n f) as [[r s1] n1]. destruct r; [|reflexivity].
+    apply IHg. apply Hg.
+  - rewrite (run_call_propagated T A st p d Hsp).
+    rewrite (run_call_propagated all_propagate A st p d (all_propagate_sites _ _)).
+    apply IHp. apply Hsp.
 Qed.
 
 Lemma hits_none n : hits n None = false.
@@ -32,15 +148,16 @@ Proof. reflexivity. Qed.
       same counter;
     - a fault index inside [n, n0) makes the run end with [Err Injected] right
       after call number [k]. *)
-Theorem run_fault_spec : forall A (p : prog A) s n k,
-  (k < n \/ snd (run p s n None) <= k -> run p s n (Some k) = run p s n None) /\
-  (n <= k < snd (run p s n None) -> exists s', run p s n (Some k) = (Err Injected, s', S k)).
+Theorem run_fault_spec : forall T A (p : prog A), sites_propagate T p -> forall s n k,
+  (k < n \/ snd (run T p s n None) <= k -> run T p s n (Some k) = run T p s n None) /\
+  (n <= k < snd (run T p s n None) -> exists s', run T p s n (Some k) = (Err Injected, s', S k)).
 Proof.
-  induction p as [A a|A c|A r|w c|A B p IHp g IHg]; intros s n k; simpl.
-  - unfold m_ret; simpl. split; [reflexivity|lia].
-  - unfold m_fail; simpl. split; [reflexivity|lia].
-  - unfold m_read; simpl. split; [reflexivity|lia].
-  - unfold m_write. rewrite hits_none, hits_some.
+  intros T A p.
+  induction p as [A a|A c|A r|w c|A B p IHp g IHg|A st p IHp d]; intros Hsp s n k.
+  - simpl. unfold m_ret; simpl. split; [reflexivity|lia].
+  - simpl. unfold m_fail; simpl. split; [reflexivity|lia].
+  - simpl. unfold m_read; simpl. split; [reflexivity|lia].
+  - simpl. unfold m_write. rewrite hits_none, hits_some.
     assert (Hn : snd (match w s with
                       | Some s' => (@Ok unit tt, s', S n)
                       | None => (Err (OpErr c), s, S n)
@@ -48,14 +165,14 @@ Proof.
     rewrite Hn. split.
     + intros Hk. destruct (Nat.eqb_spec k n) as [->|Hne]; [lia|reflexivity].
     + intros Hk. assert (k = n) as -> by lia. rewrite Nat.eqb_refl. eauto.
-  - unfold m_bind.
-    destruct (run p s n None) as [[r0 s0] n0] eqn:E0.
-    pose proof (run_counter_mono _ p s n None) as Hm0. rewrite E0 in Hm0. simpl in Hm0.
-    destruct (IHp s n k) as [IHp1 IHp2]. rewrite E0 in IHp1, IHp2. simpl in IHp1, IHp2.
+  - destruct Hsp as [Hp Hg]. simpl. unfold m_bind.
+    destruct (run T p s n None) as [[r0 s0] n0] eqn:E0.
+    pose proof (run_counter_mono T _ p s n None) as Hm0. rewrite E0 in Hm0. simpl in Hm0.
+    destruct (IHp Hp s n k) as [IHp1 IHp2]. rewrite E0 in IHp1, IHp2. simpl in IHp1, IHp2.
     destruct r0 as [a|e].
     + (* the first part succeeds in the fault-free run *)
-      pose proof (run_counter_mono _ (g a) s0 n0 None) as Hm1.
-      destruct (IHg a s0 n0 k) as [IHg1 IHg2].
+      pose proof (run_counter_mono T _ (g a) s0 n0 None) as Hm1.
+      destruct (IHg a (Hg a) s0 n0 k) as [IHg1 IHg2].
       split.
       * intros Hk. rewrite IHp1 by lia. apply IHg1. lia.
       * intros Hk. destruct (Nat.lt_ge_cases k n0) as [Hlt|Hge].
@@ -65,153 +182,247 @@ Proof.
       simpl. split.
       * intros Hk. rewrite IHp1 by lia. reflexivity.
       * intros Hk. destruct IHp2 as [s' Hs']; [lia|]. rewrite Hs'. eauto.
+  - (* a call: transparent, BECAUSE its site propagates *)
+    rewrite !(run_call_propagated T A st p d Hsp). apply IHp. apply Hsp.
 Qed.
 
 (** ** Corollaries in the form of the property *)
 
 (** error, or: the fault lies beyond the last write and nothing differs from
     the fault-free run - never [Ok] after a strict prefix of the writes. *)
-Theorem fault_error_or_full_effect : forall A (p : prog A) s k,
-  match run p s O (Some k) with
-  | (Ok r, s', n) => writes p s <= k /\ (Ok r, s', n) = run p s O None
+Theorem fault_error_or_full_effect : forall T A (p : prog A), sites_propagate T p -> forall s k,
+  match run T p s O (Some k) with
+  | (Ok r, s', n) => writes T p s <= k /\ (Ok r, s', n) = run T p s O None
   | (Err _, _, _) => True
   end.
 Proof.
-  intros A p s k.
-  destruct (run_fault_spec A p s O k) as [H1 H2].
-  destruct (Nat.lt_ge_cases k (writes p s)) as [Hlt|Hge].
+  intros T A p Hsp s k.
+  destruct (run_fault_spec T A p Hsp s O k) as [H1 H2].
+  destruct (Nat.lt_ge_cases k (writes T p s)) as [Hlt|Hge].
   - destruct H2 as [s' Hs']; [unfold writes, clean in Hlt; lia|]. rewrite Hs'. exact I.
   - rewrite H1 by (right; exact Hge).
-    destruct (run p s O None) as [[r s'] n] eqn:E. destruct r; [|exact I].
+    destruct (run T p s O None) as [[r s'] n] eqn:E. destruct r; [|exact I].
     split; [exact Hge|reflexivity].
 Qed.
 
-Theorem fault_within_writes_is_reported : forall A (p : prog A) s k,
-  k < writes p s -> exists s', run p s O (Some k) = (Err Injected, s', S k).
+Theorem fault_within_writes_is_reported : forall T A (p : prog A), sites_propagate T p -> forall s k,
+  k < writes T p s -> exists s', run T p s O (Some k) = (Err Injected, s', S k).
 Proof.
-  intros A p s k Hk. apply (proj2 (run_fault_spec A p s O k)).
+  intros T A p Hsp s k Hk. apply (proj2 (run_fault_spec T A p Hsp s O k)).
   unfold writes, clean in Hk. lia.
 Qed.
 
-Theorem fault_beyond_writes_is_invisible : forall A (p : prog A) s k,
-  writes p s <= k -> run p s O (Some k) = run p s O None.
+Theorem fault_beyond_writes_is_invisible : forall T A (p : prog A), sites_propagate T p -> forall s k,
+  writes T p s <= k -> run T p s O (Some k) = run T p s O None.
 Proof.
-  intros A p s k Hk. apply (proj1 (run_fault_spec A p s O k)). right. exact Hk.
+  intros T A p Hsp s k Hk. apply (proj1 (run_fault_spec T A p Hsp s O k)). right. exact Hk.
+Qed.
+
+(** the model's search for a failing input finds nothing *)
+Theorem no_bad_position : forall T A (p : prog A), sites_propagate T p -> forall s,
+  bad_positions T p s = [].
+Proof.
+  intros T A p Hsp s. unfold bad_positions.
+  assert (H : forall l, (forall k, In k l -> k < writes T p s) ->
+            filter (fun k => is_ok (fst (fst (run T p s O (Some k))))) l = []).
+  { induction l as [|k l IH]; intros Hl; [reflexivity|]. simpl.
+    destruct (fault_within_writes_is_reported T A p Hsp s k) as [s' Hs']; [apply Hl; left; reflexivity|].
+    rewrite Hs'. simpl. apply IH. intros k' Hk'. apply Hl. right. exact Hk'. }
+  apply H. intros k Hk. apply in_seq in Hk. lia.
 Qed.
 
 (** A successful faulty run made exactly the writes of the fault-free run:
     same store. *)
-Theorem ok_means_all_writes_applied : forall A (p : prog A) s k r s' n,
-  run p s O (Some k) = (Ok r, s', n) ->
-  run p s O None = (Ok r, s', n) /\ n = writes p s.
+Theorem ok_means_all_writes_applied : forall T A (p : prog A), sites_propagate T p -> forall s k r s' n,
+  run T p s O (Some k) = (Ok r, s', n) ->
+  run T p s O None = (Ok r, s', n) /\ n = writes T p s.
 Proof.
-  intros A p s k r s' n H.
-  pose proof (fault_error_or_full_effect A p s k) as Hs. rewrite H in Hs.
+  intros T A p Hsp s k r s' n H.
+  pose proof (fault_error_or_full_effect T A p Hsp s k) as Hs. rewrite H in Hs.
   destruct Hs as [_ Heq]. split; [symmetry; exact Heq|].
   unfold writes, clean. rewrite <- Heq. reflexivity.
 Qed.
 
 (** ** Transactions *)
 
-Theorem rollback_restores : forall A (p : prog A) s f e s',
-  update p s f = (Err e, s') -> s' = s.
+Theorem rollback_restores : forall T A (p : prog A) s f e s',
+  update T p s f = (Err e, s') -> s' = s.
 Proof.
-  intros A p s f e s'. unfold update.
-  destruct (run p s O f) as [[r s1] n1]. destruct r; intros H; inversion H; reflexivity.
+  intros T A p s f e s'. unfold update.
+  destruct (run T p s O f) as [[r s1] n1]. destruct r; intros H; inversion H; reflexivity.
 Qed.
 
-Theorem update_error_or_full_effect : forall A (p : prog A) s k,
-  match update p s (Some k) with
-  | (Ok r, s') => writes p s <= k /\ (Ok r, s') = update p s None
+Theorem update_error_or_full_effect : forall T A (p : prog A), sites_propagate T p -> forall s k,
+  match update T p s (Some k) with
+  | (Ok r, s') => writes T p s <= k /\ (Ok r, s') = update T p s None
   | (Err _, s') => s' = s
   end.
 Proof.
-  intros A p s k. unfold update.
-  pose proof (fault_error_or_full_effect A p s k) as H.
-  destruct (run p s O (Some k)) as [[r s1] n1]. destruct r as [a|e]; [|reflexivity].
+  intros T A p Hsp s k. unfold update.
+  pose proof (fault_error_or_full_effect T A p Hsp s k) as H.
+  destruct (run T p s O (Some k)) as [[r s1] n1]. destruct r as [a|e]; [|reflexivity].
   destruct H as [Hk Heq]. split; [exact Hk|]. rewrite <- Heq. reflexivity.
 Qed.
 
 (** After a faulty attempt (rolled back when it failed), running the
     operation again without fault gives what a run without the fault would
     have given. *)
-Theorem retry_equals_clean_run : forall A (p : prog A) s k,
-  match update p s (Some k) with
-  | (Err _, s1) => update p s1 None = update p s None
-  | (Ok r, s1) => (Ok r, s1) = update p s None
+Theorem retry_equals_clean_run : forall T A (p : prog A), sites_propagate T p -> forall s k,
+  match update T p s (Some k) with
+  | (Err _, s1) => update T p s1 None = update T p s None
+  | (Ok r, s1) => (Ok r, s1) = update T p s None
   end.
 Proof.
-  intros A p s k.
-  pose proof (update_error_or_full_effect A p s k) as H.
-  destruct (update p s (Some k)) as [r s1]. destruct r as [a|e].
+  intros T A p Hsp s k.
+  pose proof (update_error_or_full_effect T A p Hsp s k) as H.
+  destruct (update T p s (Some k)) as [r s1]. destruct r as [a|e].
   - exact (proj2 H).
   - rewrite H. reflexivity.
 Qed.
 
 (** ** Operations with memory (memory-after-disk ordering) *)
 
-Theorem op_error_restores_memory_and_store : forall Mem R (o : op Mem R) m s f e m' s',
-  run_op o m s f = (Err e, m', s') -> m' = m /\ s' = s.
+Theorem op_error_restores_memory_and_store : forall T Mem R (o : op Mem R) m s f e m' s',
+  run_op T o m s f = (Err e, m', s') -> m' = m /\ s' = s.
 Proof.
-  intros Mem R o m s f e m' s'. unfold run_op.
-  destruct (update (disk o m) s f) as [r s1] eqn:E. destruct r as [a|x]; intros H; inversion H; subst.
-  split; [reflexivity|]. exact (rollback_restores _ _ _ _ _ _ E).
+  intros T Mem R o m s f e m' s'. unfold run_op.
+  destruct (update T (disk o m) s f) as [r s1] eqn:E. destruct r as [a|x]; intros H; inversion H; subst.
+  split; [reflexivity|]. exact (rollback_restores _ _ _ _ _ _ _ E).
 Qed.
 
-Theorem op_error_or_full_effect : forall Mem R (o : op Mem R) m s k,
-  match run_op o m s (Some k) with
-  | (Ok r, m', s') => writes (disk o m) s <= k /\ (Ok r, m', s') = run_op o m s None
+Theorem op_error_or_full_effect : forall T Mem R (o : op Mem R) m, sites_propagate T (disk o m) -> forall s k,
+  match run_op T o m s (Some k) with
+  | (Ok r, m', s') => writes T (disk o m) s <= k /\ (Ok r, m', s') = run_op T o m s None
   | (Err _, m', s') => m' = m /\ s' = s
   end.
 Proof.
-  intros Mem R o m s k. unfold run_op.
-  pose proof (update_error_or_full_effect _ (disk o m) s k) as H.
-  destruct (update (disk o m) s (Some k)) as [r s1]. destruct r as [a|e].
+  intros T Mem R o m Hsp s k. unfold run_op.
+  pose proof (update_error_or_full_effect T _ (disk o m) Hsp s k) as H.
+  destruct (update T (disk o m) s (Some k)) as [r s1]. destruct r as [a|e].
   - destruct H as [Hk Heq]. split; [exact Hk|]. rewrite <- Heq. reflexivity.
   - split; [reflexivity|exact H].
 Qed.
 
-Theorem op_retry_equals_clean_run : forall Mem R (o : op Mem R) m s k,
-  match run_op o m s (Some k) with
-  | (Err _, m1, s1) => run_op o m1 s1 None = run_op o m s None
-  | (Ok r, m1, s1) => (Ok r, m1, s1) = run_op o m s None
+Theorem op_retry_equals_clean_run : forall T Mem R (o : op Mem R) m, sites_propagate T (disk o m) -> forall s k,
+  match run_op T o m s (Some k) with
+  | (Err _, m1, s1) => run_op T o m1 s1 None = run_op T o m s None
+  | (Ok r, m1, s1) => (Ok r, m1, s1) = run_op T o m s None
   end.
 Proof.
-  intros Mem R o m s k.
-  pose proof (op_error_or_full_effect Mem R o m s k) as H.
-  destruct (run_op o m s (Some k)) as [[r m1] s1]. destruct r as [a|e].
+  intros T Mem R o m Hsp s k.
+  pose proof (op_error_or_full_effect T Mem R o m Hsp s k) as H.
+  destruct (run_op T o m s (Some k)) as [[r m1] s1]. destruct r as [a|e].
   - exact (proj2 H).
   - destruct H as [-> ->]. reflexivity.
 Qed.
 
-(** ** Loops: how [writes] decomposes (used to read off write counts) *)
+(** ** Several calls in one transaction *)
 
-Lemma run_bind : forall A B (p : prog A) (g : A -> prog B) s n f,
-  run (Bind p g) s n f =
-  match run p s n f with
-  | (Ok a, s1, n1) => run (g a) s1 n1 f
+Lemma run_bind : forall T A B (p : prog A) (g : A -> prog B) s n f,
+  run T (Bind p g) s n f =
+  match run T p s n f with
+  | (Ok a, s1, n1) => run T (g a) s1 n1 f
   | (Err e, s1, n1) => (Err e, s1, n1)
   end.
 Proof. reflexivity. Qed.
 
-(** Eager steps: the store part is still a program of the language, so the
-    store is handled as above; the memory is what is not restored. *)
-Lemma run_eager_store_is_a_program : forall Mem (steps : list (eager_step Mem)) m s n f,
-  exists p : prog unit,
-    let '(r, _, s', n') := run_eager steps m s n f in run p s n f = (r, s', n').
+(** the explicit-memory run and the program [steps_prog] agree on result,
+    store and counter: the theorems about programs apply to the disk side of
+    a whole transaction *)
+Lemma run_steps_is_steps_prog : forall T Mem (steps : list (step Mem)) idx m pend s n f,
+  let '(r, _, _, s', n', _) := run_steps T steps idx m pend s n f in
+  run T (steps_prog steps m) s n f = (r, s', n').
 Proof.
-  induction steps as [|[d e] rest IH]; intros m s n f; simpl.
-  - exists (Ret tt). reflexivity.
-  - destruct (run (d m) s n f) as [[r s1] n1] eqn:E. destruct r as [u|x].
-    + destruct (IH (e m) s1 n1 f) as [q Hq].
-      exists (Bind (d m) (fun _ => q)). rewrite run_bind, E.
-      destruct (run_eager rest (e m) s1 n1 f) as [[[r2 m2] s2] n2]. exact Hq.
-    + exists (d m). exact E.
+  intros T Mem steps. induction steps as [|st rest IH]; intros idx m pend s n f; simpl.
+  - reflexivity.
+  - unfold m_bind. destruct (run T (st_disk st (mem_before st m)) s n f) as [[r s1] n1].
+    destruct r as [a|e]; [|reflexivity]. apply IH.
 Qed.
 
-Theorem update_eager_store_restored : forall Mem (steps : list (eager_step Mem)) m s f x m' s',
-  update_eager steps m s f = (Err x, m', s') -> s' = s.
+Theorem update_steps_is_update : forall T Mem (steps : list (step Mem)) m s f,
+  let '(r, _, s', _) := update_steps T steps m s f in
+  update T (steps_prog steps m) s f = (r, s').
 Proof.
-  intros Mem steps m s f x m' s'. unfold update_eager.
-  destruct (run_eager steps m s O f) as [[[r m1] s1] n1]. destruct r; intros H; inversion H; reflexivity.
+  intros T Mem steps m s f. unfold update_steps, update.
+  pose proof (run_steps_is_steps_prog T Mem steps O m [] s O f) as H.
+  destruct (run_steps T steps O m [] s O f) as [[[[[r m1] pend] s1] n1] i1].
+  rewrite H. destruct r as [[]|e]; reflexivity.
 Qed.
+
+(** the store is always restored, whatever the shapes *)
+Theorem update_steps_store_restored : forall T Mem (steps : list (step Mem)) m s f x m' s' i,
+  update_steps T steps m s f = (Err x, m', s', i) -> s' = s.
+Proof.
+  intros T Mem steps m s f x m' s' i. unfold update_steps.
+  destruct (run_steps T steps O m [] s O f) as [[[[[r m1] pend] s1] n1] i1].
+  destruct r; intros H; inversion H; reflexivity.
+Qed.
+
+(** One call in its own transaction, of a shape other than BeforeOwnWrites,
+    is an operation in the sense of [run_op]: its memory effect is applied
+    exactly when the transaction commits. *)
+Definition step_op {Mem} (st : step Mem) : op Mem (list key) :=
+  {| disk := st_disk st; mem_after := st_mem st |}.
+
+Theorem single_step_is_op : forall T Mem (st : step Mem) m s f,
+  st_shape st <> BeforeOwnWrites ->
+  let '(r, m', s', _) := update_steps T [st] m s f in
+  match run_op T (step_op st) m s f with
+  | (Ok _, m2, s2) => r = Ok tt /\ m' = m2 /\ s' = s2
+  | (Err e, m2, s2) => r = Err e /\ m' = m2 /\ s' = s2
+  end.
+Proof.
+  intros T Mem st m s f Hsh. unfold update_steps, run_op, update, mem_before, mem_done. simpl.
+  unfold mem_before, mem_done.
+  destruct (st_shape st) eqn:Esh; try congruence;
+    destruct (run T (st_disk st m) s O f) as [[r s1] n1]; destruct r as [a|e]; simpl; auto.
+Qed.
+
+(** The memory after a failed transaction is the memory after the effects of
+    the calls COMPLETED before the failing one that have shape AfterOwnWrites
+    or BeforeOwnWrites, plus the failing call's own effect when its shape is
+    BeforeOwnWrites: nothing else can leak.  In particular: *)
+Lemma run_steps_first_failure : forall T Mem (st : step Mem) rest idx m pend s n f x m' pend' s' n',
+  run_steps T (st :: rest) idx m pend s n f = (Err x, m', pend', s', n', idx) ->
+  m' = mem_before st m.
+Proof.
+  intros T Mem st rest idx m pend s n f x m' pend' s' n' H. simpl in H.
+  destruct (run T (st_disk st (mem_before st m)) s n f) as [[r s1] n1]. destruct r as [a|e].
+  - exfalso.
+    assert (Hidx : forall (steps : list (step Mem)) i m0 pend0 s0 n0 r0 m1 p1 s2 n2 j,
+               run_steps T steps i m0 pend0 s0 n0 f = (r0, m1, p1, s2, n2, j) -> i <= j).
+    { induction steps as [|st' rest' IH]; intros i m0 pend0 s0 n0 r0 m1 p1 s2 n2 j Hr; simpl in Hr.
+      - inversion Hr. lia.
+      - destruct (run T (st_disk st' (mem_before st' m0)) s0 n0 f) as [[r' s1'] n1'].
+        destruct r' as [a'|e']; [apply IH in Hr; lia|inversion Hr; lia]. }
+    apply Hidx in H. lia.
+  - inversion H. reflexivity.
+Qed.
+
+(** when the FIRST call fails and its shape is not BeforeOwnWrites, nothing
+    leaks: memory and store are as before the transaction *)
+Theorem first_step_failure_leaks_nothing : forall T Mem (st : step Mem) rest m s f x m' s',
+  st_shape st <> BeforeOwnWrites ->
+  update_steps T (st :: rest) m s f = (Err x, m', s', O) -> m' = m /\ s' = s.
+Proof.
+  intros T Mem st rest m s f x m' s' Hsh H. unfold update_steps in H.
+  destruct (run_steps T (st :: rest) O m [] s O f) as [[[[[r m1] pend] s1] n1] i1] eqn:E.
+  destruct r as [u|e]; inversion H; subst.
+  apply run_steps_first_failure in E. subst. unfold mem_before.
+  destruct (st_shape st); try congruence; split; reflexivity.
+Qed.
+
+(** ** Why the hypothesis is needed: one dropped site refutes the statement *)
+Local Open Scope string_scope.
+Local Open Scope Z_scope.
+
+Definition T_dropped : table := fun s => if String.eqb s "x:f>db.Put" then DroppedReturn else Propagated.
+Definition two_puts : prog unit :=
+  Call "" (call "x:f>db.Put" (put 0 [0] [1]) ;;; call "x:f>db.Put2" (put 0 [1] [1])) tt.
+
+Example dropped_site_refutes :
+  writes T_dropped two_puts ∅ = 2%nat /\
+  fst (fst (run T_dropped two_puts ∅ O (Some O))) = Ok tt /\
+  bad_positions T_dropped two_puts ∅ = [O] /\
+  bad_positions all_propagate two_puts ∅ = [].
+Proof. vm_compute. repeat split. Qed.
